@@ -53,9 +53,11 @@ def _resolve_ref(
     ref_name = ref_name_parts[-1]
 
     # 1. Check if already parsed (fully or as a placeholder)
-    if ref_name in context.parsed_schemas and not context.parsed_schemas[ref_name]._max_depth_exceeded_marker:
+    # (a schema is registered under its sanitized name: the key used for this raw name is looked up first)
+    parsed_key = context.registered_keys_by_raw_name.get(ref_name, ref_name)
+    if parsed_key in context.parsed_schemas and not context.parsed_schemas[parsed_key]._max_depth_exceeded_marker:
         # Re-using already parsed schema from context
-        return context.parsed_schemas[ref_name]
+        return context.parsed_schemas[parsed_key]
 
     # 2. Get the raw schema node for the reference
     ref_node = context.raw_spec_schemas.get(ref_name)
@@ -892,6 +894,7 @@ def _parse_schema(
                     )
 
             context.parsed_schemas[registration_key] = schema_ir
+            context.registered_keys_by_raw_name[schema_name] = registration_key
 
         # Set generation_name and final_module_stem for schemas that will be generated as separate files
         # Skip for synthetic primitives (inline types) - they should remain without these attributes
